@@ -1,6 +1,7 @@
 import SignaloModel.Proofs.BridgeMean
 import SignaloModel.Proofs.MeanProofs
 import SignaloModel.Proofs.MeanFromState
+import SignaloModel.Proofs.MeanBounded
 /-!
 # C03 — Moving average equals the mean of the last min(k,N) samples
 
@@ -9,6 +10,9 @@ The property theorems for C03: `#check` prints each statement, `#print axioms` i
 -/
 open SignaloModel
 
+#check @SignaloModel.Sinks.smStep_toInt
+#check @SignaloModel.Sinks.run_intermediates_are_blocks
+#check @SignaloModel.Sinks.run_intermediates_fit
 #check @Registry.mean_from_inv
 #check @Registry.mean_inject_full_run
 #check @Registry.mean_registry_correct
@@ -18,6 +22,9 @@ open SignaloModel
 #check @Sinks.minv_step
 #check @Sinks.mean_forgets
 
+#print axioms SignaloModel.Sinks.smStep_toInt
+#print axioms SignaloModel.Sinks.run_intermediates_are_blocks
+#print axioms SignaloModel.Sinks.run_intermediates_fit
 #print axioms Registry.mean_from_inv
 #print axioms Registry.mean_inject_full_run
 #print axioms Registry.mean_registry_correct
